@@ -1,4 +1,5 @@
 import Model.Collocate
+import Std.Data.HashMap
 /-!
 Line-protocol driver for C04 (Collocator.collocate).  Positions are integer codes (equal
 code ⇔ equal lat/lon doubles), doubles cross as decimal UInt64 bit patterns, times are
@@ -9,6 +10,9 @@ integer ns.  The tree is the replay of recorded `query_radius` answers, looked u
   clear                        -> ok       (empty tables, keep the Collocator state)
   shuf K s0,s1,...             -> ok
   ans TP QP Q J1..JQ D1..DQ    -> ok       (TP, QP comma lists of codes; rows as in drv_c06)
+                                           a call the model makes that was not recorded verbatim (e.g. the other
+                                           side builds the index) is answered from the recorded near-relation
+                                           on coordinates: (code, code) -> distance
   cut L:n,L:n,...   | cut -    -> ok
   ds NAME line line ...        -> ok       line = label:time:cell|cell|...   cell = code/id or n/id
   collocate P S MI RBITS START STOP MF THR
@@ -27,6 +31,7 @@ structure DState where
   st : SState Nat := {}
   shufs : List (Nat × List Nat) := []
   answers : List (List Nat × List Nat × List (List Nat) × List (List Float)) := []
+  rel : Std.HashMap (Nat × Nat) Float := {}
   cut : List (Int × Nat) := []
   datasets : List (String × List (Line Nat)) := []
 
@@ -43,7 +48,10 @@ def showList (l : List String) : String := if l.isEmpty then "-" else ",".interc
 def mkTree (d : DState) : TreeFn Nat Float := fun tp qs _ =>
   match d.answers.find? (fun a => a.1 == tp && a.2.1 == qs) with
   | some a => (a.2.2.1, a.2.2.2)
-  | none => ([[1000000000]], [[0.0]])      -- unknown call: surfaces as index-error
+  | none =>
+    -- brute force over the recorded near-relation (symmetric in the coordinates)
+    let rows := qs.map (fun q => (tp.zipIdx.filterMap (fun (c, j) => (d.rel.get? (c, q)).map (fun x => (j, x)))))
+    (rows.map (·.map Prod.fst), rows.map (·.map Prod.snd))
 
 def mkShuf (d : DState) : Nat → List Nat → List Nat := fun k _ =>
   match d.shufs.find? (fun x => x.1 == k) with
@@ -104,7 +112,7 @@ def showResult (res : Result Nat Float) : String :=
 def step (d : DState) (line : String) : DState × String :=
   match (line.splitOn " ").filter (· ≠ "") with
   | ["reset"] => ({}, "ok")
-  | ["clear"] => ({ d with shufs := [], answers := [], cut := [], datasets := [] }, "ok")
+  | ["clear"] => ({ d with shufs := [], answers := [], rel := {}, cut := [], datasets := [] }, "ok")
   | ["shuf", k, s] =>
     match k.toNat?, parseNatList s with
     | some k, some s => ({ d with shufs := (k, s) :: d.shufs }, "ok")
@@ -116,7 +124,12 @@ def step (d : DState) (line : String) : DState × String :=
       match (rows.take q).mapM parseNatList, (rows.drop q).mapM parseNatList with
       | some J, some Db =>
         let D : List (List Float) := Db.map (·.map (fun b => Float.ofBits b.toUInt64))
-        ({ d with answers := (tp, qp, J, D) :: d.answers }, "ok")
+        let tpa := tp.toArray
+        let rel := ((qp.zip (J.zip D)).foldl (fun (m : Std.HashMap (Nat × Nat) Float) (q, js, ds) =>
+          (js.zip ds).foldl (fun m (j, x) =>
+            let c := tpa.getD j 0
+            (m.insert (c, q) x).insert (q, c) x) m) d.rel)
+        ({ d with answers := (tp, qp, J, D) :: d.answers, rel := rel }, "ok")
       | _, _ => (d, "bad-op")
     | _, _, _ => (d, "bad-op")
   | ["cut", c] =>
